@@ -73,45 +73,64 @@ def _expected(vi, flags, quiet, takes_flags=True):
     return (not quiet) and LEVELS[vi] >= lowest(f)
 
 
-def gate_output(vi: int, flags: Optional[int], quiet: bool) -> bool:
+def _configure(obj, vi, quiet, order):
+    """The gate depends on the CURRENT verbosity and quiet state only - whatever order and history of setter calls produced it."""
+    if order == 0:
+        obj.set_verbosity(LEVELS[vi])
+        obj.set_quiet(quiet)
+    elif order == 1:
+        obj.set_quiet(quiet)
+        obj.set_verbosity(LEVELS[vi])
+    elif order == 2:
+        obj.set_quiet(not quiet)
+        obj.set_verbosity(LEVELS[vi])
+        obj.set_quiet(quiet)
+    else:
+        obj.set_verbosity(LEVELS[3 - vi])
+        obj.set_quiet(quiet)
+        obj.set_verbosity(LEVELS[vi])
+    return obj.is_quiet() == quiet and (not hasattr(obj, "verbosity") or obj.verbosity == LEVELS[vi])
+
+
+def gate_output(vi: int, flags: Optional[int], quiet: bool, order: int) -> bool:
     """
-    pre: 0 <= vi <= 3
+    pre: 0 <= vi <= 3 and 0 <= order <= 3
     post: _
     """
     meth, fmt = PART["meth"], PART["fmt"]
     st = BufferedOutputStream()
     o = Output(st, FMT[fmt]())
-    o.set_verbosity(LEVELS[vi])
-    o.set_quiet(quiet)
+    if not _configure(o, vi, quiet, order):
+        return False
     _call(o, OUT_METHODS[meth], flags)
     return (st.fetch() != "") == _expected(vi, flags, quiet, OUT_METHODS[meth][1])
 
 
-def gate_output_twin(vi: int, flags: Optional[int], quiet: bool) -> bool:
+def gate_output_twin(vi: int, flags: Optional[int], quiet: bool, order: int) -> bool:
     """
-    pre: 0 <= vi <= 3
+    pre: 0 <= vi <= 3 and 0 <= order <= 3
     post: _
     """
     meth, fmt = PART["meth"], PART["fmt"]
     st = BufferedOutputStream()
     o = Output(st, FMT[fmt]())
-    o.set_verbosity(LEVELS[vi])
-    o.set_quiet(quiet)
+    if not _configure(o, vi, quiet, order):
+        return False
     _call(o, OUT_METHODS[meth], flags)
     return st.fetch() == ""       # reachability twin: some input must write
 
 
-def gate_section(vi: int, flags: Optional[int], quiet: bool) -> bool:
+def gate_section(vi: int, flags: Optional[int], quiet: bool, order: int) -> bool:
     """
-    pre: 0 <= vi <= 3
+    pre: 0 <= vi <= 3 and 0 <= order <= 3
     post: _
     """
     meth, ansi = PART["meth"], PART["ansi"]
     st = BufferedOutputStream()
     parent = Output(st, AnsiFormatter(forced=True) if ansi else PlainFormatter())
     s = parent.section()
-    s.set_verbosity(LEVELS[vi])
-    s.set_quiet(quiet)
+    if not _configure(s, vi, quiet, order):
+        return False
     _call(s, SEC_METHODS[meth], flags)
     wrote = st.fetch() != ""
     exp = _expected(vi, flags, quiet, SEC_METHODS[meth][1])
@@ -122,9 +141,9 @@ def gate_section(vi: int, flags: Optional[int], quiet: bool) -> bool:
     return wrote == exp
 
 
-def gate_section_second(vi: int, flags: Optional[int], quiet: bool) -> bool:
+def gate_section_second(vi: int, flags: Optional[int], quiet: bool, order: int) -> bool:
     """
-    pre: 0 <= vi <= 3
+    pre: 0 <= vi <= 3 and 0 <= order <= 3
     post: _
     """
     meth = PART["meth"]
@@ -137,16 +156,16 @@ def gate_section_second(vi: int, flags: Optional[int], quiet: bool) -> bool:
     s1.write_line("a")
     s2.write_line("b")
     before = st.fetch()
-    s1.set_verbosity(LEVELS[vi])
-    s1.set_quiet(quiet)
+    if not _configure(s1, vi, quiet, order):
+        return False
     _call(s1, SEC_METHODS[meth], flags)
     wrote = st.fetch() != before
     return wrote == _expected(vi, flags, quiet, SEC_METHODS[meth][1])
 
 
-def gate_io(vi: int, flags: Optional[int], quiet: bool) -> bool:
+def gate_io(vi: int, flags: Optional[int], quiet: bool, order: int) -> bool:
     """
-    pre: 0 <= vi <= 3
+    pre: 0 <= vi <= 3 and 0 <= order <= 3
     post: _
     """
     meth, buffered = PART["meth"], PART["buffered"]
@@ -156,8 +175,8 @@ def gate_io(vi: int, flags: Optional[int], quiet: bool) -> bool:
     else:
         so, se = BufferedOutputStream(), BufferedOutputStream()
         io = IO(Input(StringInputStream("")), Output(so, AnsiFormatter(forced=True)), Output(se, NullFormatter()))
-    io.set_verbosity(LEVELS[vi])
-    io.set_quiet(quiet)
+    if not _configure(io, vi, quiet, order):
+        return False
     name = IO_METHODS[meth][0]
     _call(io, IO_METHODS[meth], flags)
     target, other = (se, so) if name.startswith("error") else (so, se)
@@ -166,17 +185,17 @@ def gate_io(vi: int, flags: Optional[int], quiet: bool) -> bool:
     return (target.fetch() != "") == _expected(vi, flags, quiet, IO_METHODS[meth][1])
 
 
-def gate_io_section(vi: int, flags: Optional[int], quiet: bool) -> bool:
+def gate_io_section(vi: int, flags: Optional[int], quiet: bool, order: int) -> bool:
     """
-    pre: 0 <= vi <= 3
+    pre: 0 <= vi <= 3 and 0 <= order <= 3
     post: _
     """
     meth = PART["meth"]
     root = BufferedIO(formatter=AnsiFormatter(forced=True))
     io = root.section()
     so, se = root.output.stream, root.error_output.stream
-    io.set_verbosity(LEVELS[vi])
-    io.set_quiet(quiet)
+    if not _configure(io, vi, quiet, order):
+        return False
     name = IO_METHODS[meth][0]
     _call(io, IO_METHODS[meth], flags)
     target, other = (se, so) if name.startswith("error") else (so, se)
